@@ -582,6 +582,65 @@ func ruleIMM3(c *Ctx) {
 		}
 		c.check(covered[h], "freeze/covers/"+h, entry, "freeze has an arm for "+h, "freeze has no arm for "+h+", a value type that holds other values: a mutable container inside it stays mutable although it is reachable from the frozen result")
 	}
+	// the builtin hands every value that can hold other values to the walker:
+	// a return of anything but the walker's result may only stand in a
+	// type-switch clause that no holder type reaches
+	inspectWithStack(entry.Body, func(n ast.Node, stack []ast.Node) bool {
+		r, ok := n.(*ast.ReturnStmt)
+		if !ok || len(r.Results) == 0 || isNilIdent(r.Results[0]) {
+			return true
+		}
+		if call, ok := ast.Unparen(r.Results[0]).(*ast.CallExpr); ok {
+			if fn := Callee(w.Root, call); fn != nil {
+				for _, fd := range fns {
+					if fd != entry && funcName(fd) == fn.Name() {
+						return true
+					}
+				}
+			}
+		}
+		reach := map[string]bool{}
+		var cl *ast.CaseClause
+		var ts *ast.TypeSwitchStmt
+		for i := len(stack) - 1; i >= 0 && ts == nil; i-- {
+			if cc, ok := stack[i].(*ast.CaseClause); ok && cl == nil {
+				cl = cc
+			}
+			if t, ok := stack[i].(*ast.TypeSwitchStmt); ok && cl != nil {
+				ts = t
+			}
+		}
+		if ts == nil {
+			for h, is := range holders {
+				if is {
+					reach[h] = true
+				}
+			}
+		} else {
+			listed := map[string]bool{}
+			for _, c2 := range ts.Body.List {
+				for _, e := range c2.(*ast.CaseClause).List {
+					if tv, ok := w.Root.TypesInfo.Types[e]; ok && tv.IsType() {
+						tn, _ := namedName(tv.Type)
+						listed[tn] = true
+						if c2 == ast.Stmt(cl) && holders[tn] {
+							reach[tn] = true
+						}
+					}
+				}
+			}
+			if cl.List == nil {
+				for h, is := range holders {
+					if is && !listed[h] {
+						reach[h] = true
+					}
+				}
+			}
+		}
+		c.check(len(reach) == 0, seq.next("freeze/entry-delegates"), r, "returned as it is only for types that hold no other values",
+			"freeze returns its argument without walking it for "+strings.Join(sortedKeys(reach), ", ")+": a mutable container inside such a value stays mutable although it is reachable from the result of freeze")
+		return true
+	})
 	c.check(lits >= 4, "freeze/constructions", entry, fmt.Sprintf("%d immutable constructions examined in %v", lits, sortedKeys(names)), fmt.Sprintf("expected >=4 immutable constructions in freeze, found %d", lits))
 }
 
